@@ -47,7 +47,8 @@ class PathTable:
     def __init__(self, prog: Optional[Program] = None, module=None, accumulators: Sequence[str] = (),
                  env: Optional[Dict[str, sp.Expr]] = None, call_hook: Optional[Callable] = None, inline_depth: int = 2,
                  positive: Sequence[str] = (), structured: bool = False, scope: Optional[Func] = None,
-                 skip_if: Optional[Callable[[ast.If], bool]] = None, unroll: bool = False, opaque: Sequence[str] = ()):
+                 skip_if: Optional[Callable[[ast.If], bool]] = None, unroll: bool = False, opaque: Sequence[str] = (),
+                 search_loops: bool = False):
         self.prog = prog
         self.module = module
         self.acc = set(accumulators)
@@ -60,6 +61,7 @@ class PathTable:
         self.skip_if = skip_if          # `if` statements to ignore altogether (e.g. verbosity blocks, checked separately)
         self.unroll = unroll            # unroll loops over short literal / module-constant sequences
         self.opaque = set(opaque)       # functions never inlined
+        self.search_loops = search_loops    # summarise `for ...: if test: ...; break` loops as found / not found
 
     # ------------------------------------------------------------------ translation with inlining
     def _T(self, env: Dict[str, sp.Expr], depth: int = 0) -> Translator:
@@ -283,6 +285,10 @@ class PathTable:
             rows = self._rows(st, T)
             if rows is not None:
                 return self._unrolled(st, rows, l, depth)
+        if isinstance(st, ast.For) and self.search_loops and _own_breaks(st):
+            r = self._search_loop(st, l, depth)
+            if r is not None:
+                return r
         if isinstance(st, (ast.For, ast.While)):
             l.events.append(("loop", unparse(st.target) if isinstance(st, ast.For) else "while", sp.Symbol("<loop>"), st))
             l.snaps[id(st)] = (dict(l.env), len(l.conds))
@@ -367,6 +373,17 @@ def _is_table(e: ast.AST) -> bool:
 
 NP_UNARY = {"log": sp.log, "exp": sp.exp, "sqrt": sp.sqrt, "abs": sp.Abs, "absolute": sp.Abs}
 KEYERROR = sp.Symbol("<KeyError>")
+
+
+def rewrite(e, pred, repl):
+    """`e.replace(pred, repl)` that keeps relations and boolean connectives unevaluated (sympy would otherwise try to decide
+    `f(x) > y` for an undefined, non-real f)."""
+    e = sp.sympify(e)
+    if isinstance(e, (sp.Eq, sp.Ne, sp.Gt, sp.Ge, sp.Lt, sp.Le)):
+        return type(e)(rewrite(e.lhs, pred, repl), rewrite(e.rhs, pred, repl), evaluate=False)
+    if isinstance(e, (sp.And, sp.Or, sp.Not)):
+        return type(e)(*[rewrite(a, pred, repl) for a in e.args], evaluate=False)
+    return e.replace(pred, repl)
 
 
 def specialise(e, world):
@@ -473,6 +490,97 @@ def _pt_unrolled(self, st: ast.For, rows, leaf: Leaf, depth: int) -> List[Leaf]:
     return out
 
 
+def _own_breaks(loop) -> List[ast.Break]:
+    out = []
+
+    def visit(n):
+        for c in ast.iter_child_nodes(n):
+            if isinstance(c, (ast.For, ast.While, ast.FunctionDef, ast.Lambda)):
+                continue
+            if isinstance(c, ast.Break):
+                out.append(c)
+            visit(c)
+    for b in loop.body:
+        if isinstance(b, ast.Break):
+            out.append(b)
+        elif not isinstance(b, (ast.For, ast.While, ast.FunctionDef)):
+            visit(b)
+    return out
+
+
+def _pt_search_loop(self, st: ast.For, leaf: Leaf, depth: int) -> Optional[List[Leaf]]:
+    """`for x in S: ...; if test(x): <effects>; break` with side-effect-free non-breaking paths.  Two kinds of outcome:
+    the loop ran to completion (no element broke out: state as before, `else` runs) or some element broke out (that path's
+    conditions, assignments and effects apply; `else` is skipped).  The conditions of a breaking path mention the element
+    through fresh symbols named after the loop target."""
+    killed = assigned_names(st)
+    entry = self._copy(leaf)
+    for nm in killed:
+        entry.env[nm] = sp.Symbol(nm, real=True)
+    for nm in [n.id for n in ast.walk(st.target) if isinstance(n, ast.Name)]:
+        entry.env[nm] = sp.Symbol(f"<{nm}>", real=True)
+    n_ev, n_co = len(entry.events), len(entry.conds)
+    try:
+        body = self._walk(st.body, entry, depth)
+    except AnalysisError:
+        return None
+    breaking = [b for b in body if b.exit == "break"]
+    passing = [b for b in body if b.exit in ("fall", "continue")]
+    if any(b.exit == "return" for b in body) or not breaking:
+        return None
+    if any(len(b.events) != n_ev for b in passing):
+        return None         # a non-breaking pass has effects: not a pure search
+    tag = sp.Function("breaks")(sp.Symbol(f"<loop@{getattr(st, '_src_lineno', st.lineno)}>"))
+    assigned_on_pass = set()
+    for stm in st.body:
+        assigned_on_pass |= _assigned_outside_break_paths(stm)
+    out = []
+    # completed: nothing broke out
+    done = self._copy(leaf)
+    done.events.append(("loop", unparse(st.target), sp.Symbol("<loop>"), st))
+    done.snaps[id(st)] = (dict(leaf.env), len(leaf.conds))
+    done.conds.append((sp.Eq(tag, sp.true, evaluate=False), False))
+    done.cond_nodes.append(st)
+    for nm in killed:
+        if nm in assigned_on_pass or nm not in leaf.env:
+            done.env[nm] = sp.Symbol(nm, real=True)
+    out += self._walk(st.orelse, done, depth) if st.orelse else [done]
+    # broken out
+    for b in breaking:
+        o = self._copy(leaf)
+        o.events.append(("loop", unparse(st.target), sp.Symbol("<loop>"), st))
+        o.snaps[id(st)] = (dict(leaf.env), len(leaf.conds))
+        o.conds.append((sp.Eq(tag, sp.true, evaluate=False), True))
+        o.cond_nodes.append(st)
+        o.conds += b.conds[n_co:]
+        o.cond_nodes += b.cond_nodes[n_co:]
+        o.events += b.events[n_ev:]
+        o.store_at.update(b.store_at)
+        for nm in killed:
+            o.env[nm] = b.env.get(nm, sp.Symbol(nm, real=True))
+        o.exit = "fall"
+        out.append(o)
+    return out
+
+
+def _assigns(node, name: str) -> bool:
+    return name in assigned_names(node)
+
+
+def _assigned_outside_break_paths(stm: ast.stmt) -> Set[str]:
+    """Names (re)bound by a statement of a search-loop body on some path that does not end in `break`."""
+    if isinstance(stm, ast.If):
+        out: Set[str] = set()
+        for branch in (stm.body, stm.orelse):
+            if branch and isinstance(branch[-1], ast.Break):
+                continue            # this branch always breaks
+            for x in branch:
+                out |= _assigned_outside_break_paths(x)
+        return out
+    return assigned_names(stm)
+
+
+PathTable._search_loop = _pt_search_loop
 PathTable._rows = _pt_rows
 PathTable._unrolled = _pt_unrolled
 
